@@ -253,6 +253,7 @@ type Node struct {
 	PendingFF     bool // joiner waiting to fast-forward
 	FFTries       int
 	RoundDiverged bool        // C13 known root cause observed on this reset node
+	Tracked       bool        // reset node whose Reset was replayed on the model (trace line R): still compared with it
 	Final         []*hg.Block // delivered blocks as stored after commit (pointers into store at delivery time)
 	FinalBody     []string    // canonical body strings at delivery time
 	NoDump        bool        // the observables are not printed (a node that is not compared with the model and whose store reads are expensive or intrusive)
@@ -308,6 +309,30 @@ func (nd *Node) ResetKnown() {
 	nd.known = map[int]int{}
 	nd.Inserted = map[int]bool{}
 	nd.fdLen = map[int]int{}
+}
+
+// ResetTracked: after a fast-forward that the model follows too (trace line R). The printed
+// observables that a Reset wipes are forgotten (the delivered blocks and the transaction pool stay),
+// the events now in the store (root and frame events) become the tracked events, and the known map is
+// taken from the store so that only events inserted after the reset are printed as I lines.
+func (nd *Node) ResetTracked(frameEvents []string) {
+	nd.ResetKnown()
+	for k := range nd.shadow {
+		if !(strings.HasPrefix(k, "d") || k == "pl") {
+			delete(nd.shadow, k)
+		}
+	}
+	nd.Tracked = true
+	for id, last := range nd.Store.KnownEvents() {
+		if p, ok := nd.Store.RepertoireByID()[id]; ok {
+			nd.known[nd.W.Ord(p.PubKeyHex)] = last
+		}
+	}
+	for _, x := range frameEvents {
+		if ev, err := nd.Store.GetEvent(x); err == nil {
+			nd.NoteInserted(ev)
+		}
+	}
 }
 
 // BlockAt returns the delivered block with the given index, if this node delivered it.
@@ -516,7 +541,7 @@ func (nd *Node) AfterActionX(sigPoolRan bool, detect bool) {
 	newEvs := []*hg.Event{}
 	for id, last := range nd.Store.KnownEvents() {
 		p, ok := nd.Store.RepertoireByID()[id]
-		if !ok || !detect || nd.WasReset {
+		if !ok || !detect || (nd.WasReset && !nd.Tracked) {
 			continue
 		}
 		o := w.Ord(p.PubKeyHex)
